@@ -68,11 +68,14 @@ def run(ctx, rep):
                 rep.fail("R3.1", vkey + ":var", "%s: variable segment %s not understood" % (key, show([x])), loc)
     rep.floor("R3.1", 73)
     rep.floor("R3.2", 7)
-    try:
-        from props import c03_mir
-        c03_mir.run(ctx, rep)
-    except ImportError:
-        pass
+    from props import c03_mir, c11
+    c03_mir.run(ctx, rep)
+    # the variable text tail is padded by helper arithmetic: its length rules (exact width / bounded and a multiple of the
+    # alignment) are C11's R11.3; R11.4 (terminator) is not part of this property
+    before = len(rep.instances)
+    c11.length_domain(ctx, rep)
+    rep.instances[before:] = [i for i in rep.instances[before:] if i["rule"] == "R11.3"]
+    rep.floors.pop("R11.4", None)
 
 
 def count_rule(ctx, rep, key, lay, x, es, header, maxlen, loc):
